@@ -20,7 +20,7 @@ def main():
         with sizes([f.cls("BTree", impl), f.cls("TreeSet", impl)], *job["sizes"]):
             t = cls()
             ref = {}
-            for k in job["keys"]:
+            for k in job.get("order") or job["keys"]:
                 if setlike:
                     t.add(km.k(k))
                 else:
@@ -44,6 +44,11 @@ def main():
                 seq = t.items() if not setlike else t.keys()
             elif src == "values":
                 seq = t.values() if not setlike else t.keys()
+            elif src in ("keys-range", "items-range"):
+                # a sequence over a key range that starts and ends INSIDE leaves
+                ks = sorted(job["keys"])
+                lo, hi = (ks[job["range"][0]], ks[job["range"][1]]) if ks else (0, 0)
+                seq = (t.items if (src == "items-range" and not setlike) else t.keys)(km.k(lo), km.k(hi))
             outcomes, bad = [], None
             for st in job["steps"]:
                 try:
@@ -58,6 +63,12 @@ def main():
                         outcomes.append("entry")
                     elif st[0] == "len":
                         len(seq)
+                        outcomes.append("entry")
+                    elif st[0] == "bool":
+                        bool(seq)
+                        outcomes.append("entry")
+                    elif st[0] == "list":
+                        [x for x in seq]
                         outcomes.append("entry")
                     elif st[0] == "ins":
                         if setlike:
@@ -83,7 +94,7 @@ def main():
                     elif st[0] == "clear":
                         t.clear(); ref.clear()
                 except (RuntimeError, IndexError) as e:
-                    if st[0] in ("next", "index", "len"):
+                    if st[0] in ("next", "index", "len", "bool", "list"):
                         outcomes.append(type(e).__name__)
                     else:
                         bad = "mutation-raised-" + type(e).__name__
